@@ -1292,6 +1292,14 @@ func genAddress(r *rand.Rand, id string, size int, total int) []string {
 			// one options value for "open or create" and then for a plain Create of the same name
 			g.add("reuseopts %d %s %s", p, name, kind)
 		}
+		if g.pick(8) == 0 {
+			// one access controller parameters value through two peers; one options value through a typed
+			// front end and then a plain Open
+			g.add("reuseac %d %d %s %s", p, q, name, kind)
+		}
+		if g.pick(8) == 0 {
+			g.add("reusefront %d %s %s", p, name, kind)
+		}
 		g.add("pathjoin %s", name)
 		g.add("detaddr %d %s %s %s", p, name, kind, acl)
 		g.add("detaddr %d %s %s %s", q, name, kind, acl)
